@@ -297,7 +297,7 @@ fn build_dense(case: &DiCase) -> (Cfg, Vec<Call>) {
     (cfg, calls)
 }
 
-fn replay_calls(cfg: Cfg, calls: &[Call]) -> Option<Runner> {
+pub(crate) fn replay_calls(cfg: Cfg, calls: &[Call]) -> Option<Runner> {
     let mut r = Runner::new(cfg);
     for c in calls {
         let s = r.step(c);
@@ -355,7 +355,7 @@ fn has_cycle_or_share(m: &Model, r: &BTreeSet<usize>) -> bool {
 
 // ============================================================================ C13
 
-fn check_slices(r: &Runner, pred: u16, rate: u8, st: &mut Stats) -> Option<Failure> {
+pub(crate) fn check_slices(r: &Runner, pred: u16, rate: u8, st: &mut Stats) -> Option<Failure> {
     let fail = |kind: &str, v: usize, d: String| Some(Failure { prop: "C13".into(), kind: kind.into(), step: v, detail: d });
     let m = &r.m;
     let before = try_observe(&*r.g, ObsLevel::FULL).ok()?;
@@ -536,7 +536,7 @@ fn parse_debug(txt: &str) -> Result<BTreeMap<usize, (Vec<(String, usize)>, Optio
     Ok(out)
 }
 
-fn check_printers(r: &Runner, st: &mut Stats) -> Option<Failure> {
+pub(crate) fn check_printers(r: &Runner, st: &mut Stats) -> Option<Failure> {
     let fail = |kind: &str, v: usize, d: String| Some(Failure { prop: "C20".into(), kind: kind.into(), step: v, detail: d });
     let m = &r.m;
     let all = |_: usize, _: usize, _: &Lab| true;
@@ -825,7 +825,7 @@ fn rebuild_differently(r: &Runner, variant: u8) -> Option<Runner> {
     Some(b)
 }
 
-fn check_exports(r: &Runner, variant: u8, st: &mut Stats) -> Option<Failure> {
+pub(crate) fn check_exports(r: &Runner, variant: u8, st: &mut Stats) -> Option<Failure> {
     let fail = |kind: &str, d: String| Some(Failure { prop: "C18".into(), kind: kind.into(), step: 0, detail: d });
     let m = &r.m;
     st.evals += 1;
